@@ -202,6 +202,15 @@ func checkC08(c *Ctx) {
 		return isRepoFunc(fn, "tree", "", "Compare") || isRepoFunc(fn, "tree", "", "CompareWeighted")
 	}, "optionally counting tip branches")
 	c.Floor("ARGSWAP", 1)
+	c.Decides("PREFILTER-SOUND: the linear search FindEdge skips a candidate before the bitset comparison only on tip-ness, hash code or bitsets (nothing that two branches defining the same split may disagree on); SIBLING-ARGS: the compare trees command hands Compare and CompareWeighted the same option variables for the parameters they share")
+	if c.prefilterSound("PREFILTER-SOUND", c.Func("tree", "Edge", "FindEdge"), "counts exactly the splits present in both / only in one") == 0 {
+		c.Undecided("PREFILTER-SOUND", "tree.Edge.FindEdge", token.NoPos, "no skipped candidate found in FindEdge (the tip-ness and hash code shortcuts were the instances confirmed by hand)")
+	}
+	c.siblingArgs("SIBLING-ARGS", c.funcsInFiles("cmd/comparetrees.go"), func(fn *types.Func) bool { return isRepoFunc(fn, "tree", "", "Compare") }, func(fn *types.Func) bool { return isRepoFunc(fn, "tree", "", "CompareWeighted") }, "optionally counting tip branches")
+	c.Floor("SIBLING-ARGS", 3)
+	c.Decides("INDEX-VALUE: EdgeIndex.Value returns the record stored for the branch, or a copy with its fields unchanged (the lengths and ranks the comparison reads are the ones it wrote)")
+	c.indexValueIsStored("INDEX-VALUE", "the weighted variant's three sums are Σ over the corresponding classes of the recorded lengths")
+	c.Floor("INDEX-VALUE", 1)
 	// CommonEdges (pairwise variant)
 	if fi := c.Func("tree", "", "CommonEdges"); fi != nil {
 		info := fi.Pkg.TypesInfo
